@@ -419,8 +419,26 @@ pub enum AnyTrk {
     BVSort(BatchVisualSort),
 }
 
+/// custom id that marks a detection the library must REJECT: at the call boundary its box gets a confidence
+/// outside [0, 1] (the field is public; the library answers with a panic while it builds the candidates)
+pub const REJECT_ID: i64 = -987_654;
+
+pub fn has_rejected(d: &[Det]) -> bool {
+    d.iter().any(|x| x.custom_id == Some(REJECT_ID))
+}
+
+fn call_box(x: &Det) -> Universal2DBox {
+    if x.custom_id == Some(REJECT_ID) {
+        let mut b = Universal2DBox::new(x.bbox.xc, x.bbox.yc, x.bbox.angle, x.bbox.aspect, x.bbox.height);
+        b.confidence = 1.5;
+        b
+    } else {
+        x.bbox.clone()
+    }
+}
+
 fn sort_dets(d: &[Det]) -> Vec<(Universal2DBox, Option<i64>)> {
-    d.iter().map(|x| (x.bbox.clone(), x.custom_id)).collect()
+    d.iter().map(|x| (call_box(x), x.custom_id)).collect()
 }
 
 impl AnyTrk {
@@ -443,12 +461,20 @@ impl AnyTrk {
 
     /// one call for one scene (batch trackers: a batch holding that scene, all results retrieved)
     pub fn predict(&mut self, scene: u64, dets: &[Det]) -> Vec<Rec> {
+        if has_rejected(dets) && matches!(self, AnyTrk::Sort(_) | AnyTrk::VSort(_)) {
+            // a call the library rejects: the caller recovers and goes on using the tracker
+            return std::panic::catch_unwind(std::panic::AssertUnwindSafe(|| self.predict_inner(scene, dets))).unwrap_or_default();
+        }
+        self.predict_inner(scene, dets)
+    }
+
+    fn predict_inner(&mut self, scene: u64, dets: &[Det]) -> Vec<Rec> {
         match self {
             // scene 0 goes through the scene-less convenience entry points (they must mean scene 0)
             AnyTrk::Sort(t) if scene == 0 => t.predict(&sort_dets(dets)).iter().map(Rec::from).collect(),
             AnyTrk::Sort(t) => t.predict_with_scene(scene, &sort_dets(dets)).iter().map(Rec::from).collect(),
             AnyTrk::VSort(t) => {
-                let obs: Vec<VisualSortObservation> = dets.iter().map(|d| VisualSortObservation::new(d.feature.as_deref(), d.quality, d.bbox.clone(), d.custom_id)).collect();
+                let obs: Vec<VisualSortObservation> = dets.iter().map(|d| VisualSortObservation::new(d.feature.as_deref(), d.quality, call_box(d), d.custom_id)).collect();
                 if scene == 0 {
                     t.predict(&obs).iter().map(Rec::from).collect()
                 } else {
